@@ -15,6 +15,7 @@ import (
 	cmttypes "github.com/cometbft/cometbft/types"
 	gogoproto "github.com/cosmos/gogoproto/proto"
 
+	errorsmod "cosmossdk.io/errors"
 	sdkmath "cosmossdk.io/math"
 
 	simtestutil "github.com/cosmos/cosmos-sdk/testutil/sims"
@@ -605,6 +606,51 @@ func (n *Node) Observe() []string {
 		}
 		out = append(out, fmt.Sprintf("AUTH %d", a))
 	}
+	// probes: the four admin-gated messages handed to the message router with senders that cannot sign a transaction —
+	// module accounts (this is how x/gov, x/group and x/authz deliver messages) and a fresh address — on a branch of the
+	// committed state that is thrown away.  The admin of this harness is an ordinary account (environment override), so
+	// every one of them must be refused as "not an authority".
+	{
+		var sb strings.Builder
+		sb.WriteString("PROBE")
+		senders := []struct {
+			name string
+			addr sdk.AccAddress
+		}{
+			{"gov", authtypes.NewModuleAddress("gov")},
+			{"distribution", authtypes.NewModuleAddress("distribution")},
+			{"bonded", authtypes.NewModuleAddress("bonded_tokens_pool")},
+			{"fresh", sdk.AccAddress([]byte("probe-fresh-address-xx"))},
+		}
+		target := -1
+		for _, v := range vals {
+			if op := w.OpByVal(v.OperatorAddress); op >= 0 && (target < 0 || op < target) {
+				target = op
+			}
+		}
+		if target < 0 {
+			target = 0
+		}
+		sp, _ := sk.GetParams(ctx)
+		for _, s := range senders {
+			msgs := []struct {
+				kind string
+				msg  sdk.Msg
+			}{
+				{"SETPOWER", &poa.MsgSetPower{Sender: s.addr.String(), ValidatorAddress: w.valStr(target), Power: 5_000_000, Unsafe: true}},
+				{"REMOVE", &poa.MsgRemoveValidator{Sender: s.addr.String(), ValidatorAddress: w.valStr(target)}},
+				{"RMPENDING", &poa.MsgRemovePending{Sender: s.addr.String(), ValidatorAddress: w.valStr(target)}},
+				{"PARAMS", &poa.MsgUpdateStakingParams{Sender: s.addr.String(), Params: poa.StakingParams{
+					UnbondingTime: sp.UnbondingTime, MaxValidators: sp.MaxValidators, MaxEntries: sp.MaxEntries,
+					HistoricalEntries: sp.HistoricalEntries, BondDenom: sp.BondDenom, MinCommissionRate: sp.MinCommissionRate}}},
+			}
+			for _, m := range msgs {
+				res := probeMsg(n, ctx, m.msg)
+				fmt.Fprintf(&sb, " %s:%s=%s", s.name, m.kind, res)
+			}
+		}
+		out = append(out, sb.String())
+	}
 	// queries
 	{
 		var sb strings.Builder
@@ -645,6 +691,26 @@ func (n *Node) Observe() []string {
 		out = append(out, sb.String())
 	}
 	return out
+}
+
+// probeMsg hands one message to the application's message router on a cache-wrapped context (discarded afterwards)
+// and returns the result class, as for transactions.
+func probeMsg(n *Node, ctx sdk.Context, msg sdk.Msg) (res string) {
+	defer func() {
+		if r := recover(); r != nil {
+			res = "panic"
+		}
+	}()
+	h := n.App.MsgServiceRouter().Handler(msg)
+	if h == nil {
+		return "noroute"
+	}
+	cctx, _ := ctx.CacheContext()
+	if _, err := h(cctx, msg); err != nil {
+		cs, code, _ := errorsmod.ABCIInfo(err, false)
+		return fmt.Sprintf("%s:%d", cs, code)
+	}
+	return "ok"
 }
 
 // routedQuery sends a query through the application's own gRPC query router (BaseApp.Query), i.e. to the query server
